@@ -72,14 +72,14 @@ theorem C15_parse_width_independent (pad₁ pad₂ bs : List Nat)
     (hbs : ∀ x ∈ bs, x < 256) (hpad₁ : ∀ x ∈ pad₁, x < 256) (hlen₁ : pad₁.length = 61)
     (hpad₂ : ∀ x ∈ pad₂, x < 256) (hlen₂ : pad₂.length = 61)
     (hraw₁ : raw₁.length = Sonic.Model.Parse.setUpCap bs.length) (hraw₂ : raw₂.length = Sonic.Model.Parse.setUpCap bs.length)
-    (hL : bs.length + 4 < 2 ^ 32) (hexp : Sonic.Proofs.Parse.ExpSmall bs) :
+    (hL : bs.length + 4 < 2 ^ 32) :
     ∃ r₁ r₂, Sonic.Model.Parse.parseDoc 16 pad₁ raw₁ d₁ bs = .ok r₁ ∧ Sonic.Model.Parse.parseDoc 32 pad₂ raw₂ d₂ bs = .ok r₂ ∧
       Sonic.Props.C01.observe r₁ = Sonic.Props.C01.observe r₂ ∧ r₁.doc.root = r₂.doc.root ∧
       ((r₁.err = r₂.err ∧ r₁.off = r₂.off) ∨
        (∃ q, Sonic.Props.C01.MalformedLiteralAt bs q ∧ q < r₁.off ∧ r₁.off ≤ bs.length ∧ q < r₂.off ∧ r₂.off ≤ bs.length ∧
           Sonic.Props.C01.StringFailureCode r₁.err ∧ Sonic.Props.C01.StringFailureCode r₂.err)) := by
   obtain ⟨r₁, r₂, h1, h2, h3, h4, h5⟩ := Sonic.Props.C01.C01_width_irrelevant 16 32 (by decide) (by decide) (by decide) (by decide)
-    pad₁ pad₂ bs raw₁ raw₂ d₁ d₂ hbs hpad₁ hlen₁ hpad₂ hlen₂ hraw₁ hraw₂ hL hexp
+    pad₁ pad₂ bs raw₁ raw₂ d₁ d₂ hbs hpad₁ hlen₁ hpad₂ hlen₂ hraw₁ hraw₂ hL
   refine ⟨r₁, r₂, h1, h2, h3, h4, ?_⟩
   rcases h5 with h | ⟨_, q, hq⟩
   · exact Or.inl h
